@@ -59,91 +59,105 @@ def build_edge_unit(name, p, q, mode, rng, cap, trace=False, race=False, extra=N
     return unit
 
 
-def _job(job):
-    """One worker job: corpus proc x shard of its candidates (and optionally depth-2 followers)."""
+def _job(job, emit):
+    """One worker job: corpus proc x shard of its candidates (and optionally depth-2 followers).
+    Streams one record per candidate; `start` resumes after a hung candidate."""
     signal.signal(signal.SIGALRM, _alarm)
-    try:
-        from .gen_schedules import enumerate_candidates
-        from .export import ExportError
+    from .gen_schedules import enumerate_candidates
+    from .export import ExportError
 
-        mod = importlib.import_module(job["module"])
-        p = mod.PROCS[job["index"]]
-        prog = f"{job['module'].split('.')[-1]}.{p.name()}"
-        ctx = corpus_ctx(mod)
-        rng = random.Random(f"{job['seed']}/{prog}/{job['shard']}")
-        cands = enumerate_candidates(p, ctx, ops=job.get("ops"))
-        out = []
-        stats = {"cands": len(cands)}
-        seen = set()
+    mod = importlib.import_module(job["module"])
+    p = mod.PROCS[job["index"]]
+    prog = f"{job['module'].split('.')[-1]}.{p.name()}"
+    ctx = corpus_ctx(mod)
+    rng = random.Random(f"{job['seed']}/{prog}/{job['shard']}")
+    cands = enumerate_candidates(p, ctx, ops=job.get("ops"))
+    seen = set()
 
-        def run(c, base, baseprog, chain):
-            rec = {"prog": baseprog, "op": c.op, "args": c.args, "facts": c.facts, "chain": chain}
-            signal.alarm(job.get("op_timeout", 40))
-            try:
-                q = c.fn()
-                signal.alarm(0)
-            except _Timeout:
-                rec["status"] = "rejected"
-                rec["exc"] = "Timeout"
-                return rec, None
-            except Exception as e:
-                signal.alarm(0)
-                rec["status"] = "rejected"
-                rec["exc"] = type(e).__name__
-                rec["msg"] = str(e)[:200]
-                return rec, None
-            if q is None:
-                rec["status"] = "rejected"
-                rec["exc"] = "NotApplicable"
-                return rec, None
-            try:
-                unit = build_edge_unit(f"{baseprog}|{c.op}({c.args})", base, q, job.get("mode", "F"), rng,
-                                       job["cap"], trace=job.get("trace", False))
-            except ExportError as e:
-                rec["status"] = "export-error"
-                rec["msg"] = str(e)[:200]
-                return rec, q
-            rec["text_a"] = str(base)
-            rec["text_b"] = str(q)
-            hb = canon_proc_hash(unit, "B")
-            if hb == canon_proc_hash(unit, "A"):
-                rec["status"] = "noop"
-                return rec, q
-            rec["dedupe"] = f"{baseprog}:{canon_proc_hash(unit, 'A')}:{hb}:{','.join(unit['modset_names'])}"
-            rec["status"] = "accepted"
-            rec["modset"] = unit["modset_names"]
-            rec["features"] = unit["features"]
-            if rec["dedupe"] not in seen:
-                seen.add(rec["dedupe"])
-                rec["unit"] = unit
+    def run(c, base, baseprog, chain):
+        rec = {"prog": baseprog, "op": c.op, "args": c.args, "facts": c.facts, "chain": chain}
+        signal.alarm(job.get("op_timeout", 40))
+        try:
+            q = c.fn()
+            signal.alarm(0)
+        except _Timeout:
+            rec["status"] = "rejected"
+            rec["exc"] = "Timeout"
+            return rec, None
+        except Exception as e:
+            signal.alarm(0)
+            rec["status"] = "rejected"
+            rec["exc"] = type(e).__name__
+            rec["msg"] = str(e)[:200]
+            return rec, None
+        if q is None:
+            rec["status"] = "rejected"
+            rec["exc"] = "NotApplicable"
+            return rec, None
+        try:
+            unit = build_edge_unit(f"{baseprog}|{c.op}({c.args})", base, q, job.get("mode", "F"), rng,
+                                   job["cap"], trace=job.get("trace", False))
+        except ExportError as e:
+            rec["status"] = "export-error"
+            rec["msg"] = str(e)[:200]
             return rec, q
+        rec["text_a"] = str(base)
+        rec["text_b"] = str(q)
+        hb = canon_proc_hash(unit, "B")
+        if hb == canon_proc_hash(unit, "A"):
+            rec["status"] = "noop"
+            return rec, q
+        rec["dedupe"] = f"{baseprog}:{canon_proc_hash(unit, 'A')}:{hb}:{','.join(unit['modset_names'])}"
+        rec["status"] = "accepted"
+        rec["modset"] = unit["modset_names"]
+        rec["features"] = unit["features"]
+        if rec["dedupe"] not in seen:
+            seen.add(rec["dedupe"])
+            rec["unit"] = unit
+        return rec, q
 
-        for k, c in enumerate(cands):
-            if k % job["nshards"] != job["shard"]:
-                continue
-            rec, q = run(c, p, prog, [])
-            out.append(rec)
-            # depth 2: follow accepted edges with a sample of second-step candidates
-            if q is not None and rec["status"] == "accepted" and job.get("depth2", 0) > 0:
-                try:
-                    c2s = enumerate_candidates(q, ctx, ops=job.get("ops2") or job.get("ops"), rich=False)
-                except Exception:
-                    c2s = []
-                rng2 = random.Random(f"{job['seed']}/{prog}/{c.op}/{c.args}")
-                rng2.shuffle(c2s)
-                for c2 in c2s[: job["depth2"]]:
-                    rec2, _ = run(c2, q, prog + "|" + c.op + "(" + c.args + ")", [c.op])
-                    out.append(rec2)
-        return {"ok": True, "edges": out, "stats": stats, "prog": prog}
-    except Exception:
-        return {"ok": False, "err": traceback.format_exc(), "job": {k: v for k, v in job.items()}}
+    for k, c in enumerate(cands):
+        if k % job["nshards"] != job["shard"] or k < job.get("start", 0):
+            continue
+        emit("begin", k)
+        rec, q = run(c, p, prog, [])
+        emit("rec", rec)
+        # depth 2: follow accepted edges with a sample of second-step candidates
+        if q is not None and rec["status"] == "accepted" and job.get("depth2", 0) > 0 and k != job.get("skip2"):
+            try:
+                c2s = enumerate_candidates(q, ctx, ops=job.get("ops2") or job.get("ops"), rich=False)
+            except Exception:
+                c2s = []
+            rng2 = random.Random(f"{job['seed']}/{prog}/{c.op}/{c.args}")
+            rng2.shuffle(c2s)
+            for c2 in c2s[: job["depth2"]]:
+                rec2, _ = run(c2, q, prog + "|" + c.op + "(" + c.args + ")", [c.op])
+                emit("rec", rec2)
 
 
-def run_jobs(jobs, procs=None):
-    procs = procs or NCPU
-    ctxm = mp.get_context("fork")
-    with ctxm.Pool(procs, maxtasksperchild=8) as pool:
-        return pool.map(_job, jobs, chunksize=1)
+def _on_hang(job, k):
+    rec = {"prog": f"{job['module'].split('.')[-1]}[{job['index']}]", "op": "?", "args": f"candidate {k}",
+           "facts": {}, "chain": [], "status": "rejected", "exc": "Hang(killed)"}
+    nj = dict(job)
+    if k is None:
+        return rec, None
+    if job.get("skip2") == k or job.get("depth2", 0) == 0:
+        nj["start"] = k + 1
+    else:
+        nj["start"] = k
+        nj["skip2"] = k  # redo candidate k without its depth-2 followers
+    return rec, nj
+
+
+def run_jobs(jobs, procs=None, silence=150):
+    """-> list of edge records.  Raises MachineryError if a worker crashed."""
+    from .pool import stream_pool
+    from .common import MachineryError
+
+    recs, crashes, hangs = stream_pool(jobs, _job, procs or NCPU, silence=silence, on_hang=_on_hang)
+    if crashes:
+        raise MachineryError("edge worker crashed:\n" + crashes[0][1])
+    return recs
 
 
 def make_jobs(modules, seed, cap, nshards=4, ops=None, depth2=0, select=None, **kw):
